@@ -708,6 +708,24 @@ class Plan:
             twins = [self.new_case(r, vs, cfg, script, f"ctxlarge{len(reals)}:{lab}:{c}", ctx=c) for c in ("plain", "no_prelude", "all_types", "all_traits")]
             self.add_group("C16", twins, "contexts")
 
+    # -- N: every special rename string, in every string mode, independent of the seed (C03, C04, C08)
+    def names_fixed(self):
+        rng = random.Random("names-fixed")
+        pool = list(dict.fromkeys(RENAME_POOL + ["Zwölf", "α", "βγ", "\t", " ", "a b", "A", "a", "aa", "aA", "x" * 40]))
+        n = len(pool)
+        for r, reals in (("i16", [(-20 + 2 * i + (i // 3)) for i in range(n)]), ("u8", list(range(3, 3 + n)))):
+            idents = [f"V{i:02d}" for i in range(n)]
+            order = list(range(n))
+            rng.shuffle(order)
+            vs = [{"ident": idents[i], "real": reals[i], "lit": str(reals[i]), "rename": pool[i]} for i in order]
+            p = prim.Proj(r)
+            probes = sorted({p.to_model(x + d) for x in reals[:6] for d in (-1, 0, 1) if prim.tmin(r) <= x + d <= prim.tmax(r)})
+            script = make_script_large(vs, vs, r, probes, rng)
+            gapless = runs_of(reals) == 1
+            cases = [self.new_case(r, vs, cfg, script, f"names:{lab}") for lab, cfg in kappa_list(gapless)
+                     if lab in ("match_nab", "table_table", "auto", "inline", "mixed1", "mixed2")]
+            self.add_group("C09", cases, "names_fixed")
+
     # -- F2: discriminants that are far apart by (almost) a power of two: a span computed in a narrower type aliases
     #        them with a gapless enum  (span = count - 1  modulo 2^k)
     def alias_shapes(self):
@@ -834,6 +852,7 @@ def build_plan(tier, seed):
         pl.full_paths()
         pl.config_matrix(n_sparse=10)
         pl.sorted_cfgs(6)
+        pl.names_fixed()
         pl.alias_shapes()
         pl.perms_reprs(30)
         pl.spellings(40)
@@ -847,12 +866,14 @@ def build_plan(tier, seed):
                         ("i8", [x for x in range(-128, 128) if x not in (-100, -99, 0, 50, 51, 52, 90, 120, 126)]),
                         ("u8", [x for x in range(0, 256) if x % 37 != 5]),
                         ("i16", list(range(-20, 280))), ("u16", [x for x in range(0, 310) if x != 100]),
-                        ("i16", [-300, -299, -100, -1, 0, 1, 7, 20, 21, 22, 100, 1000, 1001, 5000, 5002, 5004, 32767])])
+                        ("i16", [-300, -299, -100, -1, 0, 1, 7, 20, 21, 22, 100, 1000, 1001, 5000, 5002, 5004, 32767]),
+                        ("u8", [x for x in range(0, 100) if x % 5 != 0]), ("i64", [x for x in range(-40, 40) if x % 3 != 0])])
     else:
         pl.shapes(prim.REPRS, per_repr_small=None, per_repr_large=200, kappas_per_shape=3)
         pl.full_paths()
         pl.config_matrix(n_sparse=60)
         pl.sorted_cfgs(60)
+        pl.names_fixed()
         pl.alias_shapes()
         pl.perms_reprs(150)
         pl.spellings(200)
@@ -867,6 +888,7 @@ def build_plan(tier, seed):
                         ("u8", [x for x in range(0, 256) if x % 37 != 5]),
                         ("i16", list(range(-20, 280))), ("u16", [x for x in range(0, 310) if x != 100]),
                         ("i16", [-300, -299, -100, -1, 0, 1, 7, 20, 21, 22, 100, 1000, 1001, 5000, 5002, 5004, 32767]),
+                        ("u8", [x for x in range(0, 100) if x % 5 != 0]), ("i64", [x for x in range(-40, 40) if x % 3 != 0]),
                         ("i64", list(range(-9223372036854775808, -9223372036854775808 + 3000)))])
     return pl
 
